@@ -999,7 +999,7 @@ Proof.
   { rewrite map_map. apply map_ext_in. intros [t [lo hi]] Hin. simpl.
     destruct (ib_log _ s IB t _ Hin) as (th & Ht & _ & Er). specialize (D t). rewrite init_delta, Ht in D. simpl in D.
     symmetry in D. apply (nth_error_nth _ _ 0) in D. rewrite D. unfold range_of in Er. injection Er as <- <-. lia. }
-  rewrite E, <- zsum_nth. apply zsum_perm, Permutation_map. apply NoDup_Permutation.
+  rewrite E. rewrite <- (zsum_nth deltas). rewrite <- L. apply zsum_perm, Permutation_map. apply NoDup_Permutation.
   - apply (ib_nodup _ s IB).
   - apply seq_NoDup.
   - intros t. rewrite in_seq. split.
@@ -1074,4 +1074,226 @@ Proof.
     intros i Hi. destruct (buf_index_lt a i OK ltac:(lia)) as (B1 & B2).
     destruct (E4 _ (conj B1 B2)) as (bf & bf' & G1 & G2 & Eb).
     exists (bid bf, buf_off a i). unfold addr, buf_index, buf_off in *. rewrite E1, E2, G1, G2, Eb. auto.
+Qed.
+
+(* ---- constructor *)
+Lemma ctor_lg_nonneg m : 0 <= ctor_lg m.
+Proof. unfold ctor_lg, log2i. pose proof (Z.log2_nonneg m). destruct (Z.shiftl 1 (Z.log2 m) =? m); lia. Qed.
+
+Theorem new_arena_spec_proof m init nid a n :
+  0 <= init -> new_arena m init nid = Some (a, n) ->
+  arena_wf a /\ a_pos a = init /\ a_bsz a = 2 ^ ctor_lg m /\ (forall i, 0 <= i < init -> get a i = Some dflt).
+Proof.
+  intros Hi H. unfold new_arena in H. pose proof (ctor_lg_nonneg m) as L.
+  set (lg := ctor_lg m) in *. rewrite Z.shiftl_1_l in H.
+  set (a0 := Arena lg (2 ^ lg) (2 ^ lg - 1) 0 0 [] 0 0) in *.
+  assert (OK0 : arena_ok a0).
+  { constructor; simpl; unfold a_tsz; simpl; try lia; auto; intros b Hb; lia. }
+  pose proof (alloc_ok a0 nid OK0) as OK1. destruct (alloc_fields a0 nid) as (F1 & F2 & F3 & F4 & F5 & F6).
+  assert (BP : 0 < 2 ^ lg) by (apply Z.pow_pos_nonneg; lia).
+  set (a1 := set_cap (alloc_buffer a0 nid) (2 ^ lg)) in *.
+  assert (WF1 : arena_wf a1).
+  { split; [destruct OK1 as [A1 A2 A3 A4]; constructor; simpl; assumption|]. unfold a1, set_cap. cbn [a_pos a_cap a_bpos a_bsz]. rewrite F4, F6, F2. unfold a0. cbn [a_pos a_bpos a_bsz]. lia. }
+  destruct (init >? 0) eqn:E.
+  - destruct (grow a1 init (S nid)) as [[[a2 r] n2]|] eqn:G; [|discriminate]. injection H as <- <-.
+    destruct (grow_spec_proof a1 init (S nid) a2 r n2 WF1 Hi G) as (R1 & R2 & R3 & R4 & _).
+    assert (P1 : a_pos a1 = 0) by (unfold a1; simpl; rewrite F4; reflexivity).
+    split; [exact R3|]. split; [lia|]. split.
+    + destruct R3 as (OK2 & _). destruct (ok_geom _ OK2) as (_ & G2 & _).
+      unfold grow in G. destruct (run_thread _ _ _) as [s|] eqn:Rn; [|discriminate]. destruct (c_ub s); [discriminate|].
+      destruct (c_thr s); [discriminate|]. injection G as <- _ _.
+      destruct (run_thread_reach _ _ _ _ Rn) as (R & _).
+      assert (IA0 : InvA (init_state a1 (S nid) [init])). { apply (Inv_init a1 (S nid) [init] WF1). constructor; [exact Hi|constructor]. }
+      destruct (reach_stable _ s IA0 R) as (IAs & (E1 & _)). simpl in E1.
+      destruct (ok_geom _ (ia_ok s IAs)) as (_ & G2' & _). rewrite G2', E1. unfold a1; simpl. rewrite F1. reflexivity.
+    + intros i Hr. apply R4. lia.
+  - injection H as <- <-. apply Z.gtb_ltb in E. apply Z.ltb_ge in E.
+    split; [exact WF1|]. unfold a1; simpl. rewrite F4, F2. simpl. split; [lia|]. split; [reflexivity|]. intros i Hr; lia.
+Qed.
+
+(* ---- copy constructor *)
+Lemma copy_entries_spec l : forall nid l', copy_entries l nid = Some l' ->
+  length l' = length l /\
+  forall k, nth_error l' k =
+            option_map (fun e => match e with Some bf => Some (Buf (nid + k) (cells bf)) | None => None end) (nth_error l k).
+Proof.
+  induction l as [|[bf|] r IH]; intros nid l' H; simpl in H.
+  - injection H as <-. split; [reflexivity|]. intros [|k]; reflexivity.
+  - destruct (copy_entries r (S nid)) as [r'|] eqn:E; [|discriminate]. injection H as <-.
+    destruct (IH _ _ E) as (L & N). split; [simpl; congruence|].
+    intros [|k]; simpl; [rewrite Nat.add_0_r; reflexivity|]. rewrite N. replace (S nid + k)%nat with (nid + S k)%nat by lia. reflexivity.
+  - discriminate.
+Qed.
+
+Lemma copy_entries_none l : forall nid, copy_entries l nid = None <-> exists k, nth_error l k = Some None.
+Proof.
+  induction l as [|[bf|] r IH]; intros nid; simpl.
+  - split; [discriminate|]. intros ([|k] & H); discriminate.
+  - destruct (copy_entries r (S nid)) as [r'|] eqn:E.
+    + split; [discriminate|]. intros ([|k] & H); simpl in H; [discriminate|].
+      assert (X : copy_entries r (S nid) = None) by (apply IH; eauto). congruence.
+    + split; [|reflexivity]. intros _. destruct (proj1 (IH (S nid)) E) as (k & Hk). exists (S k). exact Hk.
+  - split; [|reflexivity]. intros _. exists 0%nat. reflexivity.
+Qed.
+
+Theorem copy_undefined_iff_proof a nid : arena_ok a -> (copy_ctor a nid = None <-> copy_reads_uninit a = true).
+Proof.
+  intros OK. pose proof (ok_bpos _ OK) as BP. unfold copy_ctor, copy_reads_uninit.
+  destruct (copy_entries (a_tbl a) nid) as [t|] eqn:E.
+  - split; [discriminate|]. intros H. apply Z.ltb_lt in H. exfalso.
+    assert (X : copy_entries (a_tbl a) nid = None).
+    { apply copy_entries_none. exists (Z.to_nat (a_bpos a)). apply (ok_uninit _ OK). lia. }
+    congruence.
+  - split; [|reflexivity]. intros _. apply Z.ltb_lt. apply copy_entries_none in E. destruct E as (k & Hk).
+    destruct (Z_lt_ge_dec (Z.of_nat k) (a_bpos a)) as [Lt|Ge].
+    + exfalso. destruct (ok_bufs _ OK (Z.of_nat k) ltac:(lia)) as (bf & G & _). unfold get_buf in G. rewrite Nat2Z.id, Hk in G. discriminate.
+    + assert (k < length (a_tbl a))%nat by (apply nth_error_Some; congruence). unfold a_tsz. lia.
+Qed.
+
+Lemma contents_ext a c : a_pos c = a_pos a -> (forall i, get_cell c i = get_cell a i) -> contents c = contents a.
+Proof. intros E H. unfold contents. rewrite E. apply map_ext. intros k. apply get_of_cell, H. Qed.
+
+Theorem copy_equal_proof a nid :
+  arena_ok a -> copy_reads_uninit a = false ->
+  exists c n', copy_ctor a nid = Some (c, n') /\
+    a_pos c = a_pos a /\ a_cap c = a_cap a /\ a_bpos c = a_bpos a /\ a_tsz c = a_tsz a /\
+    (forall i, get_cell c i = get_cell a i) /\ contents c = contents a /\
+    (forall b bf, get_buf c b = Some bf -> (nid <= bid bf < n')%nat) /\
+    arena_ok c.
+Proof.
+  intros OK NU.
+  destruct (copy_ctor a nid) as [[c n']|] eqn:E; [|apply copy_undefined_iff_proof in E; [congruence|exact OK]].
+  exists c, n'. split; [reflexivity|]. unfold copy_ctor in E.
+  destruct (copy_entries (a_tbl a) nid) as [t|] eqn:CE; [|discriminate]. injection E as <- <-.
+  destruct (copy_entries_spec _ _ _ CE) as (L & N). simpl.
+  assert (GB : forall b, get_buf (Arena (a_lg a) (a_bsz a) (a_mask a) (a_pos a) (a_cap a) t (a_bpos a) 0) b =
+                         option_map (fun bf => Buf (nid + Z.to_nat b) (cells bf)) (get_buf a b)).
+  { intros b. unfold get_buf; simpl. rewrite N. destruct (nth_error (a_tbl a) (Z.to_nat b)) as [[bf|]|]; reflexivity. }
+  assert (GC : forall i, get_cell (Arena (a_lg a) (a_bsz a) (a_mask a) (a_pos a) (a_cap a) t (a_bpos a) 0) i = get_cell a i).
+  { intros i. unfold get_cell. rewrite GB. unfold buf_index, buf_off; simpl. destruct (get_buf a (Z.shiftr i (a_lg a))); reflexivity. }
+  split; [reflexivity|]. split; [reflexivity|]. split; [reflexivity|]. split; [unfold a_tsz; simpl; congruence|].
+  split; [exact GC|]. split; [apply contents_ext; [reflexivity|exact GC]|]. split.
+  - intros b bf H. rewrite GB in H. destruct (get_buf a b) as [bf0|] eqn:G0; [|discriminate]. injection H as <-. simpl.
+    unfold get_buf in G0. assert (Z.to_nat b < length (a_tbl a))%nat.
+    { apply nth_error_Some. destruct (nth_error (a_tbl a) (Z.to_nat b)); [discriminate|discriminate G0]. }
+    lia.
+  - destruct OK as [A1 A2 A3 A4]. constructor; simpl.
+    + exact A1.
+    + unfold a_tsz in *; simpl. rewrite L. exact A2.
+    + intros b Hb. rewrite GB. destruct (A3 b Hb) as (bf & G & Lb). rewrite G. simpl. eexists; split; [reflexivity|exact Lb].
+    + unfold a_tsz in *; simpl. rewrite L. intros b Hb. rewrite N, (A4 b Hb). reflexivity.
+Qed.
+
+(* the property for the copy constructor, and its refutation *)
+Definition copy_statement : Prop :=
+  forall a nid, arena_wf a -> exists c n', copy_ctor a nid = Some (c, n') /\ a_pos c = a_pos a /\ contents c = contents a.
+
+Theorem copy_refuted_proof :
+  exists a1 n1 a r n,
+    new_arena 2 0 0 = Some (a1, n1) /\ grow a1 5 n1 = Some (a, r, n) /\ arena_wf a /\ a_pos a = 5 /\ a_bpos a = 3 /\ a_tsz a = 4 /\
+    copy_reads_uninit a = true /\ copy_ctor a n = None.
+Proof.
+  destruct (new_arena 2 0 0) as [[a1 n1]|] eqn:E1; [|vm_compute in E1; discriminate].
+  destruct (grow a1 5 n1) as [[[a r] n]|] eqn:E2; [|vm_compute in E1; injection E1 as <- <-; vm_compute in E2; discriminate].
+  exists a1, n1, a, r, n. split; [reflexivity|]. split; [reflexivity|].
+  destruct (new_arena_spec_proof 2 0 0 a1 n1 ltac:(lia) E1) as (WF1 & _).
+  destruct (grow_spec_proof a1 5 n1 a r n WF1 ltac:(lia) E2) as (_ & _ & WF & _).
+  split; [exact WF|].
+  vm_compute in E1. injection E1 as <- <-. vm_compute in E2. injection E2 as <- <- <-.
+  vm_compute. repeat split; reflexivity.
+Qed.
+
+Theorem copy_statement_false_proof : ~ copy_statement.
+Proof.
+  intros H. destruct copy_refuted_proof as (a1 & n1 & a & r & n & _ & _ & WF & _ & _ & _ & _ & CN).
+  destruct (H a n WF) as (c & n' & E & _). congruence.
+Qed.
+
+(* ---- move construction, move assignment, swap, copy assignment on the slots *)
+Lemma slot_set_same w s a n : (s < length (w_slots w))%nat -> slot (set_slot w s (Some a) n) s = Some a.
+Proof. intros H. unfold slot, set_slot; simpl. rewrite nth_error_upd_eq by exact H. reflexivity. Qed.
+Lemma slot_set_other w s x a n : s <> x -> slot (set_slot w s a n) x = slot w x.
+Proof. intros H. unfold slot, set_slot; simpl. rewrite nth_error_upd_neq by exact H. reflexivity. Qed.
+Lemma slot_some_lt w s a : slot w s = Some a -> (s < length (w_slots w))%nat.
+Proof. unfold slot. intros H. apply nth_error_Some. destruct (nth_error (w_slots w) s); [discriminate|discriminate H]. Qed.
+Lemma slot_empty_lt w s : slot_empty w s = true -> (s < length (w_slots w))%nat /\ slot w s = None.
+Proof.
+  unfold slot_empty, slot. destruct (nth_error (w_slots w) s) as [[a|]|] eqn:E; try discriminate. intros _.
+  split; [apply nth_error_Some; congruence|reflexivity].
+Qed.
+
+Theorem swap_exact_proof w x y a b w' out :
+  slot w x = Some a -> slot w y = Some b -> exec_op w (OSwap x y) = Some (w', out) ->
+  slot w' x = Some b /\ slot w' y = Some a /\ out = full b ++ full a.
+Proof.
+  intros Hx Hy H. simpl in H. rewrite Hy, Hx in H. injection H as <- <-.
+  pose proof (slot_some_lt _ _ _ Hx) as Lx. pose proof (slot_some_lt _ _ _ Hy) as Ly.
+  split; [|split; [|reflexivity]].
+  - destruct (Nat.eq_dec y x) as [->|Hne].
+    + rewrite slot_set_same; [congruence|]. unfold set_slot; simpl. rewrite upd_length. exact Lx.
+    + rewrite slot_set_other by exact Hne. apply slot_set_same. exact Lx.
+  - apply slot_set_same. unfold set_slot; simpl. rewrite upd_length. exact Ly.
+Qed.
+
+Theorem move_assign_exact_proof w d s a b w' out :
+  slot w s = Some a -> slot w d = Some b -> exec_op w (OMoveAssign d s) = Some (w', out) ->
+  slot w' d = (if Nat.eqb d s then Some b else Some a) /\ (d <> s -> slot w' d = Some a) /\ out = full a ++ full b.
+Proof.
+  intros Hs Hd H. simpl in H. rewrite Hs, Hd in H. injection H as <- <-.
+  pose proof (slot_some_lt _ _ _ Hs) as Ls. pose proof (slot_some_lt _ _ _ Hd) as Ld.
+  assert (X : d <> s -> slot (set_slot (set_slot w d (Some a) (w_next w)) s (Some b) (w_next w)) d = Some a).
+  { intros Hne. rewrite slot_set_other by congruence. apply slot_set_same. exact Ld. }
+  split; [|split; [exact X|reflexivity]].
+  destruct (Nat.eqb d s) eqn:E.
+  - apply Nat.eqb_eq in E; subst s. apply slot_set_same. unfold set_slot; simpl. rewrite upd_length. exact Ld.
+  - apply Nat.eqb_neq in E. apply X, E.
+Qed.
+
+Theorem move_exact_proof w d s a w' out :
+  slot w s = Some a -> exec_op w (OMove d s) = Some (w', out) ->
+  slot w' d = Some a /\ slot w' s = Some zero_arena /\ contents zero_arena = [].
+Proof.
+  intros Hs H. simpl in H. rewrite Hs in H. destruct (slot_empty w d) eqn:E; [|discriminate]. injection H as <- <-.
+  destruct (slot_empty_lt _ _ E) as (Ld & Nd). pose proof (slot_some_lt _ _ _ Hs) as Ls.
+  assert (Hne : s <> d) by (intros ->; congruence).
+  split; [|split; [|reflexivity]].
+  - rewrite slot_set_other by exact Hne. apply slot_set_same. exact Ld.
+  - apply slot_set_same. unfold set_slot; simpl. rewrite upd_length. exact Ls.
+Qed.
+
+Theorem copy_op_exact_proof w d s a w' out :
+  slot w s = Some a -> arena_ok a -> exec_op w (OCopy d s) = Some (w', out) ->
+  copy_reads_uninit a = false /\
+  exists c, slot w' d = Some c /\ slot w' s = Some a /\ a_pos c = a_pos a /\ contents c = contents a /\
+            (forall b bf, get_buf c b = Some bf -> (w_next w <= bid bf)%nat).
+Proof.
+  intros Hs OK H. simpl in H. rewrite Hs in H. destruct (slot_empty w d) eqn:E; [|discriminate].
+  destruct (copy_ctor a (w_next w)) as [[c n]|] eqn:CC; [|discriminate]. injection H as <- <-.
+  destruct (slot_empty_lt _ _ E) as (Ld & Nd).
+  assert (NU : copy_reads_uninit a = false).
+  { destruct (copy_reads_uninit a) eqn:U; [|reflexivity]. apply (copy_undefined_iff_proof a (w_next w) OK) in U. congruence. }
+  split; [exact NU|].
+  destruct (copy_equal_proof a (w_next w) OK NU) as (c' & n' & CC' & P1 & _ & _ & _ & _ & P2 & P3 & _).
+  rewrite CC in CC'. injection CC' as <- <-.
+  exists c. split; [apply slot_set_same; exact Ld|]. split.
+  - rewrite slot_set_other; [exact Hs|]. intros ->. congruence.
+  - split; [exact P1|]. split; [exact P2|]. intros b bf G. apply (P3 b bf G).
+Qed.
+
+Theorem assign_exact_proof w d s a old w' out :
+  slot w s = Some a -> slot w d = Some old -> arena_ok a -> exec_op w (OAssign d s) = Some (w', out) ->
+  copy_reads_uninit a = false /\
+  exists c, slot w' d = Some c /\ a_pos c = a_pos a /\ contents c = contents a /\ (d <> s -> slot w' s = Some a).
+Proof.
+  intros Hs Hd OK H. simpl in H. rewrite Hs, Hd in H.
+  destruct (copy_ctor a (w_next w)) as [[c n]|] eqn:CC; [|discriminate]. injection H as <- _.
+  assert (NU : copy_reads_uninit a = false).
+  { destruct (copy_reads_uninit a) eqn:U; [|reflexivity]. apply (copy_undefined_iff_proof a (w_next w) OK) in U. congruence. }
+  split; [exact NU|].
+  destruct (copy_equal_proof a (w_next w) OK NU) as (c' & n' & CC' & P1 & _ & _ & _ & _ & P2 & _).
+  rewrite CC in CC'. injection CC' as <- <-.
+  pose proof (slot_some_lt _ _ _ Hd) as Ld.
+  exists c. split; [unfold slot; simpl; rewrite nth_error_upd_eq by exact Ld; reflexivity|].
+  split; [exact P1|]. split; [exact P2|].
+  intros Hne. unfold slot in *; simpl. rewrite nth_error_upd_neq by exact Hne. exact Hs.
 Qed.
